@@ -194,6 +194,7 @@ func ruleOPT1(c *Ctx) {
 	}
 	okOrder := lcall != nil && rcall != nil
 	n := 0
+	untouched, where := true, ""
 	for _, ci := range callsIn(efn) {
 		call, ok := ci.(*ssa.Call)
 		if !ok {
@@ -207,8 +208,20 @@ func ruleOPT1(c *Ctx) {
 		if okOrder && !(derivesFromValue(call.Call.Args[0], lcall) && derivesFromValue(call.Call.Args[1], rcall)) {
 			okOrder = false
 		}
+		// ... and untouched: the operator functions do all unwrapping and conversion themselves (OPT-9/10/14 decide their
+		// tables); an adjustment of an operand on the way there (a conversion to the other operand's type, a rounding)
+		// changes the value that is compared or computed with
+		isResultOf := func(v ssa.Value, of *ssa.Call) bool {
+			ex, ok := unspill(v).(*ssa.Extract)
+			return ok && ex.Index == 0 && ex.Tuple == ssa.Value(of)
+		}
+		if !(isResultOf(call.Call.Args[0], lcall) && isResultOf(call.Call.Args[1], rcall)) {
+			untouched = false
+			where = p.InstrPos(call)
+		}
 	}
 	c.Check(okOrder && n >= 15, "Expression.Evaluate / operands are passed left, right", p.Pos(efn.Pos()), fmt.Sprintf("%d operator calls take (left value, right value)", n), "an operator function receives its operands swapped or from another source")
+	c.Check(untouched && n >= 15, "Expression.Evaluate / operand values reach the operator functions unchanged", p.Pos(efn.Pos()), "arguments are the very results of the two operand evaluations", "an operand is adjusted between its evaluation and the operator function (at "+where+"): the value compared or computed with is no longer the value of the operand (e.g. a literal converted to the other operand's narrower type wraps around)")
 }
 
 // parserExpressionAlternatives extracts from the generated expression(): per alternative its precedence constant, the
